@@ -311,6 +311,7 @@ def assemble(unit_name, out_path=None):
                 "file": sp["file"],
                 "sel": sp["sel"],
                 "fn_name": r["fn_name"],
+                "has_body": r.get("has_body", True),
                 "props": sp["props"],
                 "src_lines": [r["src_start_line"], r["src_end_line"]],
                 "gen_lines": [start_gen, len(out_lines)],
